@@ -134,6 +134,18 @@ def gen_calls(tier, rng):
             calls.append(("LENCAT", {"s": s, "t": t}))
             for n in NN:
                 calls.append(("INSTR", {"s": s, "t": t, "n": n, "has": True}))
+    # INSTR where the text searched for overlaps itself and a longer run of its beginning stands before the real occurrence
+    # ("aaB" in "aaaB"): every haystack over {a, B} up to length 5 (6) x every needle of length 2 - 3 (4), with and without start
+    import itertools
+    hl, nl = (6, 4) if tier == "thorough" else (5, 3)
+    hay = [list(p) for k in range(2, hl + 1) for p in itertools.product((97, 66), repeat=k)]
+    ned = [list(p) for k in range(2, nl + 1) for p in itertools.product((97, 66), repeat=k)]
+    overlap_calls = []
+    for hs in hay:
+        for nd in ned:
+            if len(nd) <= len(hs):
+                overlap_calls.append(("INSTR", {"s": hs, "t": nd, "n": 1, "has": False}))
+                overlap_calls.append(("INSTR", {"s": hs, "t": nd, "n": rng.randint(1, len(hs)), "has": True}))
     for n in NN + [40, 255]:
         calls.append(("SPACE$", {"n": n}))
         for m in (-1, 0, 32, 65, 200, 255, 256):
@@ -164,7 +176,7 @@ def gen_calls(tier, rng):
             (keep if len(c[1].get("s", [])) <= 2 else rest).append(c)
         rng.shuffle(rest)
         calls = keep + rest[:12000]
-    return calls
+    return calls + overlap_calls
 
 
 def decode_out(line):
